@@ -12,6 +12,10 @@ importlib.reload before every reference evaluation, which resets all module-leve
   result-scribbled           : r = f(a) ; every ndarray inside r is overwritten ; f(a) again                                  vs  fresh f(a)
   interleaved                : f(a) ; f(c) for an unrelated c ; f(b) with b near a                                            vs  fresh f(b)
 
+  spelling                   : the same values spelled differently - integral values as python ints / integer arrays / numpy integer scalars,
+                               arrays as nested lists or tuples, scalars as numpy scalars                                                      vs  f on floats / float64 arrays
+                               (a spelling the function does not accept at all - it raises where the float call does not - is recorded, not reported)
+
 Results are compared with the tolerance of the property (default 1e-9 relative to the size of the result; an exception must be the same
 exception type).  A difference is reported as a failing input whose replay is the call history."""
 import importlib
@@ -202,8 +206,63 @@ def plain(a):
     return out
 
 
+def integralise(rng, a):
+    """a with a random non-empty subset of its float arguments rounded to integral values (still floats); returns (a', chosen indices)"""
+    idx = [i for i, v in enumerate(a) if isinstance(v, float) or isinstance(v, (list, tuple))]
+    if not idx:
+        return list(a), []
+    chosen = [i for i in idx if rng.random() < 0.6] or [rng.choice(idx)]
+
+    def r(x):
+        if isinstance(x, (list, tuple)):
+            return [r(y) for y in x]
+        return float(round(x)) if isinstance(x, float) else x
+    return [r(v) if i in chosen else v for i, v in enumerate(a)], chosen
+
+
+def spell(a, chosen, variant, layout_mask=None):
+    """argument objects for the values a in one of the spellings 0 (reference: floats, C-ordered float64 arrays), 1 (ints / integer arrays), 2 (lists, numpy scalars),
+    3 (tuples), 4 (Fortran-ordered arrays), 5 (transposed / negative-stride views)"""
+    def conv(x, f):
+        return [conv(y, f) for y in x] if isinstance(x, (list, tuple)) else f(x)
+
+    def tup(x):
+        return tuple(tup(y) for y in x) if isinstance(x, (list, tuple)) else x
+    out = []
+    for i, v in enumerate(a):
+        if isinstance(v, (Fixed, Atoms)) or not isinstance(v, (float, list, tuple)):
+            out.append(build1(v))
+        elif isinstance(v, float):
+            integral = i in chosen
+            out.append([float(v), int(v) if integral else float(v), (np.int64(int(v)) if integral else np.float64(v)), np.float64(v), float(v), float(v)][variant])
+        else:
+            integral = i in chosen
+            if variant == 0:
+                out.append(np.array(v, dtype=float))
+            elif variant == 1:
+                out.append(np.array(v, dtype=int) if integral else np.array(v, dtype=float))
+            elif variant == 2:
+                out.append(conv(v, int) if integral else conv(v, float))
+            elif variant == 3:
+                out.append(tup(conv(v, float)))
+            else:
+                # memory layouts, chosen per argument (variant 4: Fortran order for the arguments picked by the mask, variant 5: transposed / negative-stride views)
+                w = np.array(v, dtype=float)
+                if layout_mask is not None and not layout_mask[i % len(layout_mask)]:
+                    out.append(w)
+                elif variant == 4:
+                    out.append(np.asfortranarray(w))
+                else:
+                    out.append(np.ascontiguousarray(w.T).T if w.ndim == 2 else w[::-1].copy()[::-1])
+    return out
+
+
+SPELLINGS = {1: 'integral values as python ints / integer arrays', 2: 'arrays as nested lists, scalars as numpy scalars', 3: 'arrays as tuples, scalars as numpy float64',
+             4: 'arrays in Fortran (column-major) memory order', 5: 'arrays as transposed / negative-stride views'}
+
+
 DELTAS = [1e-12, 1e-10, 1e-9, 1e-8, 1e-7, 1e-6, 3e-6, 8e-6, 3e-5, 1e-3, 0.05, 0.5]
-MODES = ['inplace-near', 'inplace-near', 'inplace-far', 'consecutive-near', 'consecutive-near', 'result-scribbled', 'interleaved']
+MODES = ['inplace-near', 'inplace-near', 'inplace-far', 'consecutive-near', 'consecutive-near', 'result-scribbled', 'interleaved', 'spelling', 'spelling']
 
 
 def run(ctx, entries):
@@ -216,13 +275,37 @@ def run(ctx, entries):
         mods = set([entry['mod']] + list(entry.get('mods', [])))
         tol = entry.get('tol', 1e-9)
         ntr = entry.get('n', (14, 60))
-        for trial in range(ctx.n(*ntr)):
+        for trial in range(ctx.n(*ntr) * 9 // 7):
             mode = MODES[trial % len(MODES)] if trial < 2 * len(MODES) else rng.choice(MODES)
             a = entry['gen'](rng)
             delta = rng.choice(DELTAS[:9]) if rng.random() < 0.8 else rng.choice(DELTAS)
             near = entry.get('near') or (lambda r, x, d: perturb(r, x, d, r.choice([None, 'one'])))
             steps = []
             pristine(mods)                     # start every history from a clean state as well: histories are independent of each other
+            if mode == 'spelling':
+              for sub in range(6):
+                a2, chosen = integralise(rng, a) if sub else (list(a), [])
+                pristine(mods)
+                ref = call(entry, spell(a2, chosen, 0))
+                for variant in (1, 2, 3, 4, 5):
+                      if variant == 1 and not chosen:
+                          continue
+                      pristine(mods)
+                      mask = None if variant < 4 or rng.random() < 0.34 else [rng.random() < 0.5 for _ in range(5)]
+                      got = call(entry, spell(a2, chosen, variant, mask))
+                      ctx.count(('hist', entry['mod'], entry['fn'], trial, variant), hist='history:%s.%s:spelling' % (entry['mod'].split('.')[-1], entry['fn']))
+                      if got[0] == 'exc' and (ref[0] == 'ok' or got[1] != ref[1]):      # the spelling is not accepted (or fails earlier for its own reason): recorded, not reported
+                          ctx.dist['spelling not accepted:%s.%s:%s' % (entry['mod'].split('.')[-1], entry['fn'], got[1])] = ctx.dist.get('spelling not accepted:%s.%s:%s' % (entry['mod'].split('.')[-1], entry['fn'], got[1]), 0) + 1
+                          continue
+                      d = differs(got, ref, tol)
+                      key = (entry['mod'], entry['fn'], 'spelling')
+                      if d and key not in seen:
+                          seen.add(key)
+                          what = ('%s.%s depends on how its arguments are spelled (%s): %r gives %s, the same values as floats / float64 arrays give %s (%s)'
+                                  % (entry['mod'], entry['fn'], SPELLINGS[variant] + ('' if mask is None else ' (arguments %s only)' % [i for i in range(len(a2)) if mask[i % 5]]), spell(a2, chosen, variant, mask), show(got), show(ref), d))
+                          fails.append({'class': 'history:spelling', 'fn': entry['mod'] + '.' + entry['fn'], 'mode': 'spelling', 'a': plain(a2), 'integral_args': chosen, 'variant': SPELLINGS[variant],
+                                        'got': show(got, 400), 'fresh': show(ref, 400), 'what': what, 'replay': what})
+                continue
             if mode.startswith('inplace'):
                 b = near(rng, a, delta) if mode == 'inplace-near' else entry['gen'](rng)
                 objs = build(a)
